@@ -72,6 +72,9 @@ PK = dict(crate="renetcode", file="packet.rs", variant={"fs": 512}, mem_gb=18, s
 L("dec_total_64", props=["C07", "C19"], functions="Packet::decode, read_sequence, decode_prefix, Packet::read, crypto::dencrypted_in_place, ReplayProtection::*",
   claim="decode returns normally for every datagram of at most 64 bytes (header, sequence and tag-length arithmetic); no handshake packet is ever parsed from them",
   bound="all datagrams of every length 0..=64 (all bytes symbolic), AEAD verdict nondeterministic, with / without key and window", **PK)
+L("dec_total_400", props=["C07", "C19"], tier="thorough", timeout=1500, functions="Packet::decode, read_sequence, decode_prefix, Packet::read, crypto::dencrypted_in_place, ReplayProtection::*",
+  claim="decode returns normally for every datagram of at most 400 bytes (this includes every challenge / response / keep-alive / denied / disconnect and payloads up to 375 B); a connection request is never parsed from them",
+  bound="all datagrams of every length 0..=400 (all bytes symbolic), AEAD verdict nondeterministic, with / without key and window", **dict(PK, mem_gb=24))
 L("dec_total", props=["C07", "C19"], tier="thorough", timeout=1200, functions="Packet::decode, read_sequence, decode_prefix, Packet::read, crypto::dencrypted_in_place, ReplayProtection::*",
   claim="decode returns normally for every datagram; request only from >=1078 B, response only from >=325 B",
   bound="all datagrams of every length 0..=1400 (all bytes symbolic), AEAD verdict nondeterministic", **PK)
@@ -204,9 +207,9 @@ for nm in ("us_gps_n1", "us_gps_n2"):
       claim="the queue is flushed and its bytes returned whatever the budget; budget deducted == bytes of messages that fitted at their turn (queue order); "
             "what does not fit is dropped whole; sequence +1 per packet; slice id +1 per sliced message sent",
       bound="%s queued messages of 0..=2400 bytes (<= 2 slices), budget/sequence/ids symbolic" % nm[-1], **UR)
-L("us_pack_small", props=["C03", "C13"], variant=V2, tier="thorough", timeout=900, functions="SendChannelUnreliable::get_packets_to_send",
+L("us_pack_small", props=["C03", "C13"], variant=V2, tier="thorough", timeout=1400, mem_gb=18, functions="SendChannelUnreliable::get_packets_to_send",
   claim="one small message travels in one SmallUnreliable packet with exactly its bytes, <= 1300 B", bound="1 message 0..=1200 B, budget unlimited", **UR)
-L("us_pack_sliced", props=["C03", "C13"], variant=V2, tier="thorough", timeout=900, functions="SendChannelUnreliable::get_packets_to_send",
+L("us_pack_sliced", props=["C03", "C13"], variant=V2, tier="thorough", timeout=1400, mem_gb=18, functions="SendChannelUnreliable::get_packets_to_send",
   claim="a message of (1200,2400] bytes travels as exactly two slices, slice i = bytes [1200 i, ..), same slice message id, each <= 1300 B", bound="1 message, budget unlimited", **UR)
 for nm in ("ur_msg_n0", "ur_msg_n1"):
     L(nm, props=["C03", "C09"], variant=V2, functions="ReceiveChannelUnreliable::{process_message, receive_message}",
@@ -270,7 +273,7 @@ for nm in ("rt_renet_rev_t0", "rt_renet_rev_t2", "rt_renet_rev_t4"):
     L(nm, props=["C16"], variant=VV, tier="thorough", timeout=1800, mem_gb=16, functions="Packet::from_bytes, Packet::to_bytes",
       claim="a byte string that decodes re-encodes to bytes that decode to the same value", bound="all byte strings <= 8 B of packet type %s" % nm[-1], **RP)
 L("ser_short_buffer", props=["C13"], variant=VV, functions="Packet::to_bytes", claim="a too small buffer yields BufferTooShort, never a panic or an over-long write", bound="buffer 0..=24 B", **RP)
-L("pk_witness", props=["C06", "C16", "C13"], variant=VV, expect="fail", tier="thorough", mem_gb=30, timeout=1800, functions="-", claim="vacuity witness", **RP)
+L("pk_witness", props=["C06", "C16", "C13"], variant=VV, expect="fail", functions="-", claim="vacuity witness (serializer)", **RP)
 
 # renet: server (C11, C12)
 RS = dict(crate="renet", file="server.rs")
@@ -310,7 +313,7 @@ for nm in ("cl_emit_requesting", "cl_emit_responding", "cl_emit_connected", "cl_
 L("cl_disconnect_nonce", props=["C17"], timeout=900, functions="NetcodeClient::{disconnect, generate_packet, generate_payload_packet}",
   claim="disconnect seals under (key, sequence) and leaves a state from which nothing else is sealed", bound="connected client", **NC)
 for nm in ("cl_frame_requesting", "cl_frame_responding", "cl_frame_connected", "cl_frame_disconnected"):
-    L(nm, props=["C07", "C18", "C04"], timeout=1500, mem_gb=16, tier="thorough", functions="NetcodeClient::process_packet, Packet::decode",
+    L(nm, props=["C07", "C18", "C04"], timeout=1500, mem_gb=20, tier="thorough", functions="NetcodeClient::process_packet, Packet::decode",
       claim="a datagram the AEAD does not accept (or the window rejects) changes nothing: state, receive/send timers, window, counters; payloads surface only when connected; only legal transitions",
       bound="all datagrams 0..=64 B, arbitrary window, state fixed per instance, AEAD verdict nondeterministic", **NC)
 L("cl_progress", props=["C18"], timeout=900, mem_gb=16, functions="NetcodeClient::process_packet", claim="authentic challenge -> responding (challenge stored, timer reset); authentic keep-alive -> connected; authentic disconnect -> disconnected by server",
@@ -428,6 +431,24 @@ for nm in ("small_packet_packed", "small_packet_single", "slice_packet", "ack_pa
 L("no_amplification", crate="-", file="-", props=["C19"], kind="smt", functions="constants of renetcode/src/lib.rs", claim="every handshake reply is strictly smaller than the smallest datagram that can trigger it", bound="unbounded")
 
 # --------------------------------------------------------------------------------------------
+# Lemmas whose harness exists in harness/ but which are NOT claimed by any check: in the round-two verification pass they did not finish
+# inside their memory / time cap on the unchanged tree, so keeping them registered would make the thorough tier inconclusive (exit 2).
+UNREGISTERED = {
+    "dec_total": "full-size (1400 B) decode totality: > 28 GB alone; replaced by dec_total_64 (quick) and dec_total_400 (thorough)",
+    "rs_size_small_n3": "> 20 GB (reads three returned packets)",
+    "parse_total_8": "renet parser over all byte strings <= 8 B: > 16 GB and not finished in 30 min",
+    "parse_total_12": "as parse_total_8",
+    "us_pack_small": "> 18 GB (reads the returned packet)", "us_pack_sliced": "> 18 GB (reads the returned packets)",
+    "rt_renet_rev_t0": "not finished under the 16 GB cap", "rt_renet_rev_t2": "exceeded the 16 GB cap", "rt_renet_rev_t4": "exceeded the 16 GB cap",
+    "rt_renet_small_rel_1": "not re-verified under the cap in round two (10-30 min each; round one ran them uncapped)",
+    "rt_renet_small_rel_2": "as rt_renet_small_rel_1", "rt_renet_small_rel_empty": "as rt_renet_small_rel_1", "rt_renet_small_unrel_2": "as rt_renet_small_rel_1",
+    "rt_renet_slice_rel": "as rt_renet_small_rel_1", "rt_renet_slice_unrel": "as rt_renet_small_rel_1", "rt_renet_ack_2": "as rt_renet_small_rel_1", "rt_renet_ack_3": "as rt_renet_small_rel_1",
+    "rs_pack_small_n1": "not re-verified under the cap in round two (10-25 min, 20 GB each in round one)", "rs_pack_small_n2": "as rs_pack_small_n1",
+    "rs_pack_sliced_n2": "as rs_pack_small_n1", "rs_pack_sliced_n3": "as rs_pack_small_n1",
+}
+LEMMAS[:] = [l for l in LEMMAS if l["name"] not in UNREGISTERED]
+
+# --------------------------------------------------------------------------------------------
 # per-property notes (MANIFEST level_note / evidence bounds)
 _COMMON = ("one-step lemmas over symbolic inputs and symbolic pre-states (induction over histories is the argument of DESIGN.md section 4, not machine-checked); "
            "model containers with <= 2-3 live entries per map (occupancy fixed per harness instance), LenBytes/VecBytes models of bytes::Bytes, ids/sequences < 2^62, "
@@ -438,7 +459,7 @@ _NC = ("chacha20poly1305 primitive replaced by a recording identity cipher / ide
 for _p, _txt, _out in (
         ("C01", _COMMON, "RenetClient-level glue (sent_packets, dispatch), more than 3 slices per message, liveness composition"),
         ("C02", _COMMON, "as C01"),
-        ("C03", _COMMON, "dispatch to the right channel inside RenetClient::process_packet; wire form of > 2 small messages only via sizes (rs_size_small_n3, thorough)"),
+        ("C03", _COMMON, "dispatch to the right channel inside RenetClient::process_packet; the wire-form lemmas that read returned packets (rs_pack_*, us_pack_*, rs_size_small_n3) are not registered (UNREGISTERED: memory), so what a packet carries is decided on the slicing / reassembly / accounting side only"),
         ("C04", _NC, "key secrecy; the primitive; server attribution is decided in the contract variant (ns_frame_connected_*)"),
         ("C05", _NC, "connect-token parsing / layout (token lemmas pruned; the repo's own token tests cover it); request and response paths are decided in the contract variant "
                      "(ns_req_guard_*, ns_resp_guard_*: thorough tier, 14-16 min each)"),
@@ -449,10 +470,10 @@ for _p, _txt, _out in (
         ("C10", _NC, "the table lemmas run on 2 slots; set_max_clients (F12) has no lemma"),
         ("C11", _COMMON, "only disconnect and the broadcast lemmas (send / receive / packet frame lemmas exceed memory)"),
         ("C12", _COMMON, "remove_connection / local-client events and process_packet on a disconnected client not decided (exceed memory)"),
-        ("C13", _COMMON + "; " + _NC, "RenetClient serialization loop; wire form of >= 3 small messages by content"),
+        ("C13", _COMMON + "; " + _NC, "RenetClient serialization loop; renet packet sizes rest on the SMT side conditions over the packing constants + ack_cap_64 + ser_short_buffer (the lemmas that read returned packets are not registered: memory)"),
         ("C14", _COMMON, "budget threading ACROSS channels in RenetClient::get_packets_to_send (per-channel only)"),
         ("C15", _COMMON, "sent_packets 3 s horizon (sp_horizon not built)"),
-        ("C16", _COMMON + "; " + _NC, "connect tokens (pruned); renet round trips and reverse round trips are thorough-only; real cipher round trip"),
+        ("C16", _COMMON + "; " + _NC, "public connect token read/write (not registered); renet round trips: only rt_renet_small_unrel_1 (and rt_renet_ack_1 if listed) are registered, thorough-only - the other instances and the reverse round trips are UNREGISTERED (memory cap); real cipher round trip"),
         ("C17", _NC, "bit flips through the real Poly1305 (trusted primitive)"),
         ("C18", _NC, "temporal composition of the progress lemmas on paper; set_max_clients (F12)"),
         ("C19", _NC, "reply sizes at the real constants come from enc_len_* and the SMT side condition; the request / response step lemmas run at shrunk sizes"),
